@@ -627,21 +627,24 @@ class Resolver:
             # repository. In that case, we could do something smarter than
             # copy_tree() here.
             cached_directory = os.path.join(self.cachedir, self.directory)
-            if os.path.isdir(cached_directory):
-                self.copy_tree(cached_directory, self.dirname)
-            elif self.wrap.type is WrapType.FILE:
-                self._get_file(packagename)
-            else:
-                self.check_can_download()
-                if self.wrap.type is WrapType.GIT:
-                    self._get_git(packagename)
-                elif self.wrap.type is WrapType.HG:
-                    self._get_hg()
-                elif self.wrap.type is WrapType.SVN:
-                    self._get_svn()
-                else:
-                    raise WrapException(f'Unknown wrap type {self.wrap.type!r}')
+            # The directory did not exist when we got here: whatever a failed
+            # step leaves behind is incomplete and must not be mistaken for a
+            # usable subproject by the next run.
             try:
+                if os.path.isdir(cached_directory):
+                    self.copy_tree(cached_directory, self.dirname)
+                elif self.wrap.type is WrapType.FILE:
+                    self._get_file(packagename)
+                else:
+                    self.check_can_download()
+                    if self.wrap.type is WrapType.GIT:
+                        self._get_git(packagename)
+                    elif self.wrap.type is WrapType.HG:
+                        self._get_hg()
+                    elif self.wrap.type is WrapType.SVN:
+                        self._get_svn()
+                    else:
+                        raise WrapException(f'Unknown wrap type {self.wrap.type!r}')
                 self.apply_patch(packagename)
                 self.apply_diff_files()
             except Exception:
